@@ -206,7 +206,7 @@ def check_flush(ctx, fb):
         rv = eng.value_of(p.store, p.ret)
         puts = p.calls(r"Database>::put$")
         mem = [e for e in p.trace if e[0] == "write" and e[1][1] == -1 and e[2] and e[2][-1] == ("f", "metadata")]
-        if known_ok(rv) is True:
+        if known_ok(rv) is not False:
             if len(puts) == 1 and mem and cond_map(p).get(("ok", ("call", puts[0][1], puts[0][2]))) is True:
                 good += 1
             else:
@@ -349,7 +349,7 @@ def check_open(ctx, fb):
         rv = eng.value_of(p.store, p.ret)
         cm = cond_map(p)
         rec = [v for a, v in cm.items() if a[0] == "b" and a[1][0] == "call" and a[1][1].endswith("was_recovered")]
-        if known_ok(rv) is True:
+        if known_ok(rv) is not False:
             good = rec == [True]
         if nothing_stored(rv):
             n_nothing += 1
@@ -392,7 +392,7 @@ def check_open(ctx, fb):
     for p in eng.run(it):
         ld = p.calls(r"MerkleTree::<D, H>::load$")
         nw = p.calls(r"MerkleTree::<D, H>::new$")
-        is_ok = p.kind == "return" and known_ok(eng.value_of(p.store, p.ret)) is True
+        is_ok = p.kind == "return" and known_ok(eng.value_of(p.store, p.ret)) is not False
         if is_ok:
             oks.append(p)
         if len(ld) != 1:
